@@ -282,6 +282,10 @@ package eth2wrap
 //@ spec func sameProDuty(p *eth2v1.ProposerDuty, d eth2v1.ProposerDuty) bool = p != nil && p.ValidatorIndex == d.ValidatorIndex && p.Slot == d.Slot && p.PubKey == d.PubKey
 //@ func (c *DutiesCache) ProposerDutiesCache
 //@ props C20 C15
+// What is handed to the cache (it keeps these slices and appends to them on later amends) is storage owned by this call:
+// never the caller's index slice, never the shared active-validator list.
+//@ fresharg c.storeOrAmendProposerDuties 2.requestedIdxs
+//@ fresharg c.storeOrAmendProposerDuties 2.duties
 //@ fresh r0.Duties
 //@ after c.fetchProposerDuties: !ok ==> len(dutiesForEpoch.duties) == 0
 //@ after c.storeOrAmendProposerDuties: forall(j, 0, len(dutiesForEpoch.duties), has(requestedSet, dutiesForEpoch.duties[j].ValidatorIndex) ==> exists(k, 0, len(dutiesResult), sameProDuty(dutiesResult[k], dutiesForEpoch.duties[j])))
@@ -305,6 +309,10 @@ package eth2wrap
 //@ spec func sameAttDuty(p *eth2v1.AttesterDuty, d eth2v1.AttesterDuty) bool = p != nil && p.ValidatorIndex == d.ValidatorIndex && p.Slot == d.Slot && p.PubKey == d.PubKey && p.CommitteeIndex == d.CommitteeIndex && p.CommitteeLength == d.CommitteeLength && p.CommitteesAtSlot == d.CommitteesAtSlot && p.ValidatorCommitteeIndex == d.ValidatorCommitteeIndex
 //@ func (c *DutiesCache) AttesterDutiesCache
 //@ props C20 C15
+// What is handed to the cache (it keeps these slices and appends to them on later amends) is storage owned by this call:
+// never the caller's index slice, never the shared active-validator list.
+//@ fresharg c.storeOrAmendAttesterDuties 2.requestedIdxs
+//@ fresharg c.storeOrAmendAttesterDuties 2.duties
 //@ fresh r0.Duties
 //@ after c.fetchAttesterDuties: !ok ==> len(dutiesForEpoch.duties) == 0
 //@ after c.storeOrAmendAttesterDuties: forall(j, 0, len(dutiesForEpoch.duties), has(requestedSet, dutiesForEpoch.duties[j].ValidatorIndex) ==> exists(k, 0, len(dutiesResult), sameAttDuty(dutiesResult[k], dutiesForEpoch.duties[j])))
@@ -328,6 +336,10 @@ package eth2wrap
 //@ spec func sameSyncDuty(p *eth2v1.SyncCommitteeDuty, d eth2v1.SyncCommitteeDuty) bool = p != nil && p.ValidatorIndex == d.ValidatorIndex && p.PubKey == d.PubKey && seqeq(p.ValidatorSyncCommitteeIndices, d.ValidatorSyncCommitteeIndices)
 //@ func (c *DutiesCache) SyncCommDutiesCache
 //@ props C20 C15
+// What is handed to the cache (it keeps these slices and appends to them on later amends) is storage owned by this call:
+// never the caller's index slice, never the shared active-validator list.
+//@ fresharg c.storeOrAmendSyncDuties 2.requestedIdxs
+//@ fresharg c.storeOrAmendSyncDuties 2.duties
 //@ fresh r0.Duties
 //@ after c.fetchSyncDuties: !ok ==> len(dutiesForEpoch.duties) == 0
 //@ after c.storeOrAmendSyncDuties: forall(j, 0, len(dutiesForEpoch.duties), has(requestedSet, dutiesForEpoch.duties[j].ValidatorIndex) ==> exists(k, 0, len(dutiesResult), sameSyncDuty(dutiesResult[k], dutiesForEpoch.duties[j])))
